@@ -412,7 +412,11 @@ func (ex *Exec) doRange(s *State, in *ssa.Range) Val {
 	}
 	m := ex.scalar(s, in.X)
 	ks := sortOf(mt.Key())
-	return RangeIter{MapRef: m, MapType: mt, Visited: Term{fmt.Sprintf("((as const (Array %s Bool)) false)", ks), SArray(ks, SBool)}}
+	empty := Term{fmt.Sprintf("((as const (Array %s Bool)) false)", ks), SArray(ks, SBool)}
+	// the visited set lives in the state (not in the iterator value) so that
+	// the loop treatment havocs it at the loop head
+	s.Ghost["visited:"+in.Name()] = empty
+	return RangeIter{MapRef: m, MapType: mt, Visited: empty}
 }
 
 func (ex *Exec) doNext(s *State, in *ssa.Next) Val {
